@@ -7,6 +7,7 @@ import (
 	"fmt"
 	"os"
 	"regexp"
+	"runtime/pprof"
 	"sort"
 	"time"
 
@@ -22,7 +23,7 @@ func main() {
 	prefix := flag.String("prefix", "Verif", "harness name prefix")
 	run := flag.String("run", "", "regexp selecting harnesses")
 	tier := flag.String("tier", "quick", "quick|thorough")
-	solver := flag.String("solver", "z3", "z3|z3-new|cvc5")
+	solver := flag.String("solver", "z3-new", "z3|z3-new|cvc5")
 	timeout := flag.Int("timeout", 10000, "solver timeout per query (ms)")
 	workers := flag.Int("workers", 0, "parallel workers (0 = cores)")
 	unwind := flag.Int("unwind", 64, "symbolic decisions per instruction and frame")
@@ -35,7 +36,13 @@ func main() {
 	trace := flag.String("trace", "", "replay a single decision vector")
 	concrete := flag.String("concrete", "", "JSON file with nondet values (concrete mode)")
 	slog := flag.String("solverlog", "", "write the SMT transcript of worker 0")
+	cpuprof := flag.String("cpuprofile", "", "write cpu profile")
 	flag.Parse()
+	if *cpuprof != "" {
+		f, _ := os.Create(*cpuprof)
+		pprof.StartCPUProfile(f)
+		defer pprof.StopCPUProfile()
+	}
 
 	cfg := symx.Config{Solver: *solver, TimeoutMs: *timeout, Workers: *workers, Unwind: *unwind, ConcCap: *conc,
 		Preempt: *preempt, MaxPaths: *maxpaths, MaxSteps: *maxsteps, Verbose: *verbose, ReplayTrace: *trace, SolverLog: *slog}
